@@ -191,6 +191,11 @@ def aggregate_templates():
     both("defer_modifies_result", [("x", "i32")], "i32", "return vtDefer(x)")
     both("for_break_continue", [("n", "i32")], "i32", "s := i32(0)\n\tfor i := i32(0); i < 8; i++ {\n\t\tif i == n {\n\t\t\tbreak\n\t\t}\n\t\tif i%2 == 0 {\n\t\t\tcontinue\n\t\t}\n\t\ts += i\n\t}\n\treturn s", go="s := int32(0)\n\tfor i := int32(0); i < 8; i++ {\n\t\tif i == n {\n\t\t\tbreak\n\t\t}\n\t\tif i%2 == 0 {\n\t\t\tcontinue\n\t\t}\n\t\ts += i\n\t}\n\treturn s")
     both("switch_multi_value", [("a", "u32")], "u32", "r := u32(0)\n\tswitch a % 5 {\n\tcase 0, 3:\n\t\tr += 1\n\tcase 1:\n\t\tr += 10\n\tcase 2:\n\t\tr += 100\n\tdefault:\n\t\tr += 1000\n\t}\n\treturn r", go="r := uint32(0)\n\tswitch a % 5 {\n\tcase 0, 3:\n\t\tr += 1\n\tcase 1:\n\t\tr += 10\n\tcase 2:\n\t\tr += 100\n\tdefault:\n\t\tr += 1000\n\t}\n\treturn r")
+    both("slice_append_fills_capacity", xy, "i32", "s := make([]i32, 3, 4)\n\ta := append(s, x)\n\tb := append(s, y)\n\treturn a[3]*7 + b[3]*5 + i32(len(a))*100 + i32(cap(b))*1000", go="s := make([]int32, 3, 4)\n\ta := append(s, x)\n\tb := append(s, y)\n\treturn a[3]*7 + b[3]*5 + int32(len(a))*100 + int32(cap(b))*1000")
+    both("slice_append_into_array_tail", xy, "i32", "arr: [4]i32\n\tt := append(arr[:3], x)\n\tu := append(arr[:2], y)\n\treturn arr[3]*7 + arr[2]*5 + t[3]*3 + u[2]", go="var arr [4]int32\n\tt := append(arr[:3], x)\n\tu := append(arr[:2], y)\n\treturn arr[3]*7 + arr[2]*5 + t[3]*3 + u[2]")
+    both("labelled_continue_runs_post", [("v", "u32")], "u32", "g := [3][3]u32{{1, 2, 3}, {4, v % 8, 6}, {7, 8, 9}}\n\tn := u32(0)\n\tvisited := u32(0)\nrows:\n\tfor r := u32(0); r < 3 && visited < 6; r++ {\n\t\tvisited++\n\t\tfor c := u32(0); c < 3; c++ {\n\t\t\tif g[r][c] == 5 {\n\t\t\t\tcontinue rows\n\t\t\t}\n\t\t}\n\t\tn += r + 1\n\t}\n\treturn n*10 + visited", go="g := [3][3]uint32{{1, 2, 3}, {4, v % 8, 6}, {7, 8, 9}}\n\tn := uint32(0)\n\tvisited := uint32(0)\nrows:\n\tfor r := uint32(0); r < 3 && visited < 6; r++ {\n\t\tvisited++\n\t\tfor c := uint32(0); c < 3; c++ {\n\t\t\tif g[r][c] == 5 {\n\t\t\t\tcontinue rows\n\t\t\t}\n\t\t}\n\t\tn += r + 1\n\t}\n\treturn n*10 + visited")
+    both("labelled_break_outer", [("v", "u32")], "u32", "n := u32(0)\nouter:\n\tfor i := u32(0); i < 4; i++ {\n\t\tfor j := u32(0); j < 4; j++ {\n\t\t\tif i*4+j == v%16 {\n\t\t\t\tbreak outer\n\t\t\t}\n\t\t\tn++\n\t\t}\n\t}\n\treturn n", go="n := uint32(0)\nouter:\n\tfor i := uint32(0); i < 4; i++ {\n\t\tfor j := uint32(0); j < 4; j++ {\n\t\t\tif i*4+j == v%16 {\n\t\t\t\tbreak outer\n\t\t\t}\n\t\t\tn++\n\t\t}\n\t}\n\treturn n")
+    both("string_compare_lengths", [("a", "u8"), ("b", "u8")], "u32", "s := string([]byte{a})\n\tt := string([]byte{b, 'x', 'y'})\n\tu := string([]byte{a, 'x', 'y', 'z'})\n\tr := u32(0)\n\tif s < t {\n\t\tr += 1\n\t}\n\tif s >= u {\n\t\tr += 2\n\t}\n\tif u > s {\n\t\tr += 4\n\t}\n\tif t <= u {\n\t\tr += 8\n\t}\n\tif \"\" < s {\n\t\tr += 16\n\t}\n\treturn r", go="s := string([]byte{a})\n\tt := string([]byte{b, 'x', 'y'})\n\tu := string([]byte{a, 'x', 'y', 'z'})\n\tr := uint32(0)\n\tif s < t {\n\t\tr += 1\n\t}\n\tif s >= u {\n\t\tr += 2\n\t}\n\tif u > s {\n\t\tr += 4\n\t}\n\tif t <= u {\n\t\tr += 8\n\t}\n\tif \"\" < s {\n\t\tr += 16\n\t}\n\treturn r")
     # strings and runes
     both("rune_to_string_len", [("r", "i32")], "i32", "return i32(len(string(rune(r))))", go="return int32(len(string(rune(r))))")
     both("rune_to_string_bytes", [("r", "i32")], "u32", "s := string(rune(r))\n\tv := u32(0)\n\tfor i := 0; i < len(s); i++ {\n\t\tv = v<<8 | u32(s[i])\n\t}\n\treturn v", go="s := string(rune(r))\n\tv := uint32(0)\n\tfor i := 0; i < len(s); i++ {\n\t\tv = v<<8 | uint32(s[i])\n\t}\n\treturn v")
